@@ -335,7 +335,7 @@ SPEC = {
         "hlsl_metadata_total", "hlsl_metadata_total_or_refused", "msl_metadata_total_or_refused",
         "msl_export_total_or_refused", "msl_reached_argument_is_bound",
         "entry_named_and_defined", "reported_thread_group_size_is_emitted", "stage_records_follow_properties",
-        "reported_size_is_the_typers_record", "pipeline_names_distinct", "reported_name_denotes_one_symbol", "hlsl_entry_point_unambiguous",
+        "reported_size_is_the_typers_record", "pipeline_names_distinct", "first_front_end_error_wins", "reported_name_denotes_one_symbol", "hlsl_entry_point_unambiguous",
         "reported_name_not_reserved", "name_kept_when_unique_and_free", "hlsl_cbuffer_bypasses_name_map_witness",
         "same_leaf_name_in_two_namespaces_witness",
         # Thm/C05Layers.lean: type spellings / layer chains
